@@ -1,6 +1,7 @@
 package sx
 
 import (
+	"strings"
 	"fmt"
 	"go/types"
 	"sort"
@@ -22,6 +23,7 @@ import (
 type guardSet struct {
 	sections int             // critical sections entered on mu since the guard was declared
 	readNow  map[string]bool // labels read in the current critical section
+	readPrev map[string]bool // labels read in earlier critical sections (what earlier decisions rested on)
 	name     string
 	mu       *value
 	cells    map[*value]string
@@ -164,6 +166,8 @@ func (i *interpreter) onStore(fr *frame, addr *value) {
 				i.discipline(lbl, fmt.Sprintf("C11: store to %s of %s without holding its mutex in write mode", lbl, g.name), fr)
 			} else if g.sections >= 2 && !g.readNow[lbl] {
 				i.discipline(lbl, fmt.Sprintf("C11: %s of %s is overwritten in a re-acquired critical section without being re-read first (check-then-act split across two critical sections)", lbl, g.name), fr)
+			} else if g.sections >= 2 {
+				i.staleDecision(g, lbl, fr)
 			}
 		case 1:
 			i.discipline(lbl, fmt.Sprintf("C11: %s writes to shared state (%s) that existed before the call", g.name, lbl), fr)
@@ -220,6 +224,8 @@ func (i *interpreter) onMapAccess(fr *frame, m *smap, write bool) {
 					i.discipline(lbl, fmt.Sprintf("C11: update of map %s of %s without holding its mutex in write mode", lbl, g.name), fr)
 				} else if g.sections >= 2 && !g.readNow[lbl+"{}"] {
 					i.discipline(lbl, fmt.Sprintf("C11: map %s of %s is updated in a re-acquired critical section without being looked up again first (check-then-act split across two critical sections)", lbl, g.name), fr)
+				} else if g.sections >= 2 {
+					i.staleDecision(g, lbl, fr)
 				}
 			} else if g.readNow != nil {
 				g.readNow[lbl+"{}"] = true
@@ -380,7 +386,29 @@ func (i *interpreter) onAcquire(p *value) {
 	for _, g := range i.guards {
 		if g.mu == p {
 			g.sections++
+			if g.readPrev == nil {
+				g.readPrev = map[string]bool{}
+			}
+			for l := range g.readNow {
+				g.readPrev[l] = true
+			}
 			g.readNow = map[string]bool{}
 		}
 	}
+}
+
+// staleDecision: a write in a re-acquired critical section while something an earlier section
+// read (and may have based its decision on) has not been read again in this one.
+func (i *interpreter) staleDecision(g *guardSet, lbl string, fr *frame) {
+	var stale []string
+	for l := range g.readPrev {
+		if !g.readNow[l] {
+			stale = append(stale, l)
+		}
+	}
+	if len(stale) == 0 {
+		return
+	}
+	sort.Strings(stale)
+	i.discipline("stale:"+lbl, fmt.Sprintf("C11: %s of %s is written in a re-acquired critical section although %s, read under the earlier acquisition, was not read again (the earlier decision may be stale)", lbl, g.name, strings.Join(stale, ", ")), fr)
 }
